@@ -12,12 +12,29 @@ PKGS = ('prophy', 'prophyc')
 SKIP_DIRS = ('tests', 'clang', '__pycache__')
 
 
+class Src(str):
+    """Source text of a construct. `fragment in text` holds when the fragment occurs literally, or - the analysed trees being
+    in normal form (sa/canon.py) - when the *normal form* of the fragment occurs modulo consistent renaming of local names
+    (hook installed by rules/shared_py.py). Equality stays exact."""
+    hook = None
+
+    def __contains__(self, piece):
+        if str.__contains__(self, piece):
+            return True
+        return bool(Src.hook(piece, self)) if Src.hook is not None else False
+
+
+def ws(s):
+    import re
+    return Src(re.sub(r'\s+', ' ', s))
+
+
 def unparse(node):
     if node is None:
-        return 'None'
+        return Src('None')
     if isinstance(node, list):
-        return '; '.join(unparse(n) for n in node)
-    return ast.unparse(node)
+        return Src('; '.join(unparse(n) for n in node))
+    return Src(ast.unparse(node))
 
 
 class Func(object):
@@ -74,6 +91,9 @@ class Module(object):
         except SyntaxError as e:
             raise AnalysisError('module %s does not parse: %s' % (rel, e))
         fold_version_guards(self.tree)
+        if not os.environ.get('SA_NO_CANON'):
+            from . import canon
+            self.tree = canon.normalise(self.tree)
         self.funcs = {}          # qualname -> [Func] (duplicates: if/else variants in order)
         self.classes = {}        # qualname -> ClassDef
         self.class_bases = {}    # qualname -> [base source]
@@ -365,7 +385,26 @@ def path_conditions(module, func, target):
                 for v in parent.values[:idx[0]]:
                     conds.append((v, isinstance(parent.op, ast.And), 'short-circuit'))
         node = parent
-    return conds
+    return atomise(conds)
+
+
+def atomise(conds):
+    """Facts in atomic form: `not X` holds  ==  X fails;  `A and B` holds == both hold;  `A or B` fails == both fail."""
+    out = []
+    for t, pol, how in conds:
+        stack = [(t, pol)]
+        while stack:
+            e, p = stack.pop(0)
+            if isinstance(e, ast.UnaryOp) and isinstance(e.op, ast.Not):
+                stack.insert(0, (e.operand, not p))
+            elif isinstance(e, ast.BoolOp) and ((isinstance(e.op, ast.And) and p) or (isinstance(e.op, ast.Or) and not p)):
+                stack = [(v, p) for v in e.values] + stack
+            elif isinstance(e, ast.Compare) and len(e.ops) == 1 and not p:
+                from . import canon
+                out.append((canon.negate(e), True, how))        # a failed comparison is the opposite comparison
+            else:
+                out.append((e, p, how))
+    return out
 
 
 def _prefix_of(node, target):
